@@ -110,6 +110,11 @@ def physical(P, S_prev, a, S):
         out.append(f"player_in_grid: player at (row {r}, col {c}) outside the 31x28 maze")
     elif int(g[r, c]) != 1:
         out.append(f"player_not_in_wall: player at (row {r}, col {c}) is inside a wall")
+    else:
+        if r >= COLS:
+            P.hit("player_in_rows_28_plus")  # rows that a swapped row/column bound would forbid
+        if S_prev is not None and abs(c - int(S_prev["player_locations.y"])) == COLS - 1:
+            P.hit("tunnel_wraparound")
     gl = np.asarray(S["ghost_locations"])
     if gl.shape != (4, 2):
         out.append(f"four_ghosts: ghost_locations shape {gl.shape}")
